@@ -331,7 +331,7 @@ func judge(s Spec) verdict {
 	nonRect := out.Rectangular()
 	if nonRect != "" {
 		v.class = "nonrectangular_chunk:" + p.Name
-		if p == ir.RemoteWrite && out.TypeCount() == d4TypeCount(streams) && out.TypeCount() > len(out.Rows()) {
+		if p == ir.RemoteWrite && out.OnlyTypeColumnOff() && out.TypeCount() == d4TypeCount(streams) && out.TypeCount() > len(out.Rows()) {
 			v.class = "remote_write_type_column_sized_by_series"
 		}
 		v.what = fmt.Sprintf("%s: per-row arrays of unequal length: %s", p.Name, nonRect)
